@@ -27,6 +27,11 @@ PLAIN = (type(None), bool, int, float, str, bytes)
 
 def configs(tier, seed):
   cfgs = [dict(name='routes', mode='routes'), dict(name='selftest-insecure', mode='selftest', insecure=True)]
+  # connections whose set-up failed part-way (a socket option refused, the peer already gone, a logging error): twisted
+  # logs the error and may keep delivering data to the half-initialised protocol - it must not unpickle with anything
+  # but the safe unpickler (failing outright is fine)
+  for i, fault in enumerate(['getPeer', 'setTcpKeepAlive', 'idle-timeout', 'log']):
+    cfgs.append(dict(name='setup-fault/%s' % fault, mode='routes', setup_fault=fault))
   # the setting itself, spelled in every way a carbon.conf may say "off" (or fail to): the daemon must either refuse to
   # start or run with the safe unpickler
   for i, sp in enumerate(['False', 'false', 'FALSE', 'no', 'off', '0', 'False  ; not on this host', 'False # comment', 'disabled',
@@ -232,25 +237,60 @@ def run_config(cfg, res):
   sys.addaudithook(audit)
   results = []
 
-  def new_pickle_receiver():
-    p = protocols.MetricPickleReceiver()
-    p.makeConnection(StringTransport())
-    p.unpickler = LoadsProxy(p.unpickler, results)
+  fault = cfg.get('setup_fault')
+
+  class FaultyTransport(StringTransport):
+    def getPeer(self):
+      if fault == 'getPeer':
+        raise OSError(107, 'Transport endpoint is not connected')
+      return StringTransport.getPeer(self)
+
+    def setTcpKeepAlive(self, flag):
+      if fault == 'setTcpKeepAlive':
+        raise OSError(22, 'Invalid argument')
+
+    def getHandle(self):
+      if fault == 'setTcpKeepAlive':
+        raise OSError(22, 'Invalid argument')
+      raise AttributeError('getHandle')
+
+  def connect(p):
+    if not fault:
+      p.makeConnection(StringTransport())
+    else:
+      import carbon.log as clog
+      saved = (ns.settings.get('METRIC_CLIENT_IDLE_TIMEOUT'), clog.listener, clog.query)
+      try:
+        if fault == 'idle-timeout':
+          ns.settings['METRIC_CLIENT_IDLE_TIMEOUT'] = -1          # reactor.callLater refuses a negative delay
+        if fault == 'log':
+          def boom(*a, **k):
+            raise IOError('log directory gone')
+          clog.listener = clog.query = boom
+        try:
+          p.makeConnection(FaultyTransport())
+          res.count('connection_setups_that_survived_the_fault')
+        except Exception:
+          res.count('connection_setups_failed')
+      finally:
+        ns.settings['METRIC_CLIENT_IDLE_TIMEOUT'], clog.listener, clog.query = saved
+    if hasattr(p, 'unpickler'):
+      p.unpickler = LoadsProxy(p.unpickler, results)
     return p
 
+  def new_pickle_receiver():
+    return connect(protocols.MetricPickleReceiver())
+
   def new_cache_handler():
-    p = protocols.CacheManagementHandler()
-    p.makeConnection(StringTransport())
-    p.unpickler = LoadsProxy(p.unpickler, results)
-    return p
+    return connect(protocols.CacheManagementHandler())
 
   state = dict(pr=new_pickle_receiver(), ch=new_cache_handler(), n=0)
   # warm-up (lazy imports of the logging path) before arming
-  state['pr'].dataReceived(frame(b'garbage'))
-  try:
-    state['ch'].dataReceived(frame(b'garbage'))
-  except Exception:
-    pass
+  for k in ('pr', 'ch'):
+    try:
+      state[k].dataReceived(frame(b'garbage'))
+    except Exception:
+      pass
   state['ch'] = new_cache_handler()
 
   def feed(payload, referenced, label, expect_fire=False):
@@ -267,7 +307,7 @@ def run_config(cfg, res):
       Watch.armed = True
       try:
         if port == 'pickle-listener':
-          if state['pr'].transport.disconnecting:
+          if getattr(state['pr'].transport, 'disconnecting', False):
             state['pr'] = new_pickle_receiver()
           state['pr'].dataReceived(frame(payload))
         else:
@@ -384,7 +424,10 @@ def run_config(cfg, res):
       # after a valid frame in the same segment
       import pickle
       valid = pickle.dumps([('ok.metric', (1, 2.0))], protocol=2)
-      state['pr'].dataReceived(frame(valid))
+      try:
+        state['pr'].dataReceived(frame(valid))
+      except Exception:
+        res.count('listener_exceptions')
       feed(wrap(ops, 1, 'value'), [(mod, name)], 'after-valid/' + label)
       # decode-error paths: a string the utf-8 unpickler cannot decode (or any other erroring item) sits before
       # the global, so that whatever the unpickler does when it hits the error is exercised with a global still to come
